@@ -41,35 +41,41 @@ def pad_slice_path(path1, path2):
 
 
 def _get_tree_links(inputs):
-    """parent links and children lists of all objects (and their collections) that can
-    be taken out of or put into a collection when `inputs` are assigned as parent or
-    children"""
+    """parent links and children lists of the whole collection trees that the magpylib
+    objects among `inputs` are part of (the children setters flatten given collections,
+    so objects from anywhere below them can change their parent)"""
     # pylint: disable=protected-access
-    objs = []
+    stack = []
 
     def collect(inp):
-        if isinstance(inp, (list, tuple)):
+        if isinstance(inp, BaseGeo):
+            root = inp
+            while root._parent is not None:
+                root = root._parent
+            stack.append(root)
+        elif isinstance(inp, (list, tuple)):
             for elem in inp:
                 collect(elem)
-        elif isinstance(inp, BaseGeo):
-            objs.append(inp)
-            objs.extend(getattr(inp, "_children", []))
 
     collect(inputs)
-    colls = [obj for obj in objs if hasattr(obj, "_children")]
-    colls += [obj._parent for obj in objs if obj._parent is not None]
-    return [(obj, obj._parent) for obj in objs], [(c, list(c._children)) for c in colls]
+    links = {}
+    while stack:
+        obj = stack.pop()
+        if id(obj) not in links:
+            children = getattr(obj, "_children", None)
+            links[id(obj)] = (obj, obj._parent, None if children is None else list(children))
+            stack.extend(children or [])
+    return list(links.values())
 
 
 def _set_tree_links(links):
     """put back the links remembered by `_get_tree_links`"""
     # pylint: disable=protected-access
-    parents, children = links
-    for obj, parent in parents:
+    for obj, parent, children in links:
         obj._parent = parent
-    for coll, kids in children:
-        coll._children = kids
-        coll._update_src_and_sens()
+        if children is not None:
+            obj._children = children
+            obj._update_src_and_sens()
 
 
 class BaseGeo(BaseTransform):
@@ -429,11 +435,20 @@ class BaseGeo(BaseTransform):
         # inputs that change the collection tree come last: when one of the other inputs
         # is rejected, the given children must not have been taken out of their collection
         # and the unfinished copy must not stay behind as a child of the given collection
-        tree_inputs = [(k, v) for k, v in kwargs.items() if k in tree_kwargs]
+        tree_inputs = []
+        for k, v in kwargs.items():
+            if k in tree_kwargs:
+                if not isinstance(v, (BaseGeo, list, tuple)):
+                    try:
+                        v = list(v)  # any iterable of objects (generator, set, array ...)
+                    except TypeError:
+                        pass
+                tree_inputs.append((k, v))
         if "parent" in kwargs:
             tree_inputs.append(("parent", kwargs["parent"]))
-        if tree_inputs:
-            # when one of the tree inputs itself is rejected, the links are put back
+        if len(tree_inputs) > 1:
+            # when one of several tree inputs is rejected, the links that the earlier ones
+            # have changed are put back (a single input is rejected before it changes anything)
             links = _get_tree_links([v for _, v in tree_inputs])
             try:
                 for k, v in tree_inputs:
@@ -441,4 +456,7 @@ class BaseGeo(BaseTransform):
             except Exception:
                 _set_tree_links(links)
                 raise
+        else:
+            for k, v in tree_inputs:
+                setattr(obj_copy, k, v)
         return obj_copy
